@@ -553,8 +553,57 @@ func Eval(c *core.Ctx, line string) *core.Case {
 		return evalNetip(line, f)
 	case "allocs":
 		return evalAllocs(c, line, f)
+	case "allocs.round":
+		return evalAllocsRound(c, line, f)
 	}
 	return nil
+}
+
+// allocs.round <cfg…> <hex>,<hex>,… : heap allocations of one ROUND of frames, each from an already tracked source,
+// parsed one after the other again and again (C16; measurement).  Several addresses of one station alternating is the
+// ordinary dual-stack case: link-local + global + ULA + IPv4 on one MAC.  The model has no allocator: oracle only.
+func evalAllocsRound(c *core.Ctx, line string, f []string) *core.Case {
+	if len(f) != 6 {
+		return nil
+	}
+	cf, ok := parseCfg(f[1:5])
+	if !ok {
+		return nil
+	}
+	var bufs [][]byte
+	for _, h := range strings.Split(f[5], ",") {
+		bufs = append(bufs, tight(core.UnHex(h)))
+	}
+	s := sessionFor(cf)
+	for k := 0; k < 2; k++ { // two warm-up rounds: every source is tracked and online afterwards
+		for _, b := range bufs {
+			if _, err := s.Parse(b); err != nil {
+				return nil
+			}
+		}
+	}
+	n := testing.AllocsPerRun(30, func() {
+		for _, b := range bufs {
+			s.Parse(b)
+		}
+	})
+	online := true
+	for _, b := range bufs {
+		if fr, err := s.Parse(b); err != nil || fr.Host == nil || !fr.Host.Online {
+			online = false
+		}
+	}
+	impl := fmt.Sprintf("n %d online %v", int(n), online)
+	return &core.Case{Line: line, Impl: impl, Cmp: func(string, string) bool { return true },
+		Oracle: func() (string, string) {
+			if n != 0 {
+				return fmt.Sprintf("Session.Parse allocates (%v allocs per round of %d frames) on well-formed frames from already tracked sources that alternate", n, len(bufs)), ""
+			}
+			if !online {
+				return "a tracked source that has just been seen is not online after alternating frames of one station's addresses", ""
+			}
+			return "", ""
+		}}
 }
 
 func evalNetip(line string, f []string) *core.Case {
@@ -1057,6 +1106,37 @@ func genAllocs(c *core.Ctx) {
 		for _, et := range []int{0x8808, 0x8899, 0x88cc, 0x890d, 0x893a, 0x6970, 0x880a, 0x0100} {
 			add(c, "allocs", fmt.Sprintf("allocs %s %s", cf.key(), core.Hex(frames.Ether(bcast, src, et, 0, c.RandBytes(46)))))
 		}
+	}
+	// rounds: the addresses of ONE station alternating (one IPv4, link-local, two global addresses in different /64s,
+	// a second one in the first /64, a ULA); every subset of two to four of them, in two orders
+	mac := clientMACs[1]
+	g1 := append([]byte{0x20, 0x01, 0x0d, 0xb8, 0, 1, 0, 1}, c.RandBytes(8)...)
+	g1b := append([]byte{0x20, 0x01, 0x0d, 0xb8, 0, 1, 0, 1}, c.RandBytes(8)...)
+	g2 := append([]byte{0x20, 0x01, 0x0d, 0xb8, 0, 2, 0, 7}, c.RandBytes(8)...)
+	ula := append([]byte{0xfd, 0x12, 0x34, 0x56, 0x78, 0x9a, 0, 1}, c.RandBytes(8)...)
+	lla := append([]byte{0xfe, 0x80, 0, 0, 0, 0, 0, 0}, c.RandBytes(8)...)
+	v6 := func(sip []byte) string {
+		return core.Hex(frames.Ether(hostMAC, mac, 0x86dd, 0, frames.IP6(frames.IP6Opts{PayloadLen: -1, Next: 17, Src: sip, Dst: ip6s(c)[5]}, transport(c, 17))))
+	}
+	pool := []string{
+		core.Hex(frames.Ether(hostMAC, mac, 0x0800, 0, frames.IP4(frames.IP4Opts{TotalLen: -1, Proto: 17, Src: []byte{192, 168, 0, 66}, Dst: []byte{192, 168, 0, 1}, TTL: 3}, transport(c, 17)))),
+		v6(lla), v6(g1), v6(g2), v6(ula), v6(g1b),
+	}
+	for mask := 1; mask < 1<<len(pool); mask++ {
+		var round []string
+		for i := range pool {
+			if mask&(1<<i) != 0 {
+				round = append(round, pool[i])
+			}
+		}
+		if len(round) < 2 || len(round) > 4 {
+			continue
+		}
+		add(c, "allocs-round", fmt.Sprintf("allocs.round %s %s", cf.key(), strings.Join(round, ",")))
+		for i, j := 0, len(round)-1; i < j; i, j = i+1, j-1 {
+			round[i], round[j] = round[j], round[i]
+		}
+		add(c, "allocs-round", fmt.Sprintf("allocs.round %s %s", cf.key(), strings.Join(round, ",")))
 	}
 }
 
